@@ -4,8 +4,16 @@
 struct ASTNode;
 class StatementExecutor;
 class Interpreter;
+struct Variable;
+struct TypedValue;
 
 namespace AssignmentHandlers {
+
+// Stores an evaluated right-hand side in one struct member cell (a
+// struct_members entry or its flattened "obj.member" variable), in the field
+// that readers of the member's declared type use (string / floating / integer)
+void store_typed_value_in_member_cell(Variable &cell,
+                                      const TypedValue &typed_value);
 
 // Member assignment execution
 void execute_member_assignment(StatementExecutor *executor,
